@@ -8,7 +8,7 @@ use crate::model::MV;
 use proptest::prelude::*;
 use std::cmp::Ordering;
 
-pub const RULE: &str = "all ordered pairs (and, in the thorough tier, all triples; quick: a fixed-size random sample of triples) of a pool of ~150 data values dense in near-equal values (shared prefixes, permuted record keys, nested lists, +-0, proper prefixes, mixed types), plus random value pairs/triples; each pair is materialised in a fresh heap (equal strings in different cells) and the six dot operators and four u* built-ins are evaluated through the parser and evaluator and compared with the model's equality / partial order. Containers holding one heap cell several times ([a, a] vs [a, b], records, nested, operands swapped) must give every relation the unshared copies give. Non-trivial = the two values differ but have the same type and a non-empty common prefix, or are records with permuted keys; distinct by the serialised pair.";
+pub const RULE: &str = "all ordered pairs (and, in the thorough tier, all triples; quick: a fixed-size random sample of triples) of a pool of ~150 data values dense in near-equal values (shared prefixes, permuted record keys, nested lists, +-0, proper prefixes, mixed types), plus random value pairs/triples; each pair is materialised in a fresh heap (equal strings in different cells) and the six dot operators and four u* built-ins are evaluated through the parser and evaluator and compared with the model's equality / partial order. Each relation is also evaluated with one operand written as a literal in the source (left and right, bare and parenthesised) and must not depend on the spelling. Containers holding one heap cell several times ([a, a] vs [a, b], records, nested, operands swapped) must give every relation the unshared copies give. Non-trivial = the two values differ but have the same type and a non-empty common prefix, or are records with permuted keys; distinct by the serialised pair.";
 pub const ASSUMPTIONS: &[&str] = &[
     "the harness model of the order (model::mv::model_cmp / model_eq) transcribes the statement: numbers, booleans, strings by code point, lists lexicographic with proper prefix first, everything else unordered",
     "NaN is excluded from the pool (the statement quantifies over numbers other than NaN)",
@@ -320,6 +320,34 @@ pub fn check_pair(a: &MV, b: &MV, ctx: &mut Ctx) -> Outcome {
     sess3.bind_value("b", v);
     if sess3.obs("a .== b") != Ok(MV::Bool(true)) {
         fail!(format!("eq-reflexive:{}", a.type_name()), "a .== a is not true for {}", a.to_source(false));
+    }
+    // one operand written as a literal in the source, the other one a name (both ways round):
+    // the relation does not depend on how an operand is spelled
+    {
+        let (asrc, bsrc) = (a.to_source(true), b.to_source(true));
+        for i in 0..6 {
+            for (src, which) in [(RELS[i].replacen("a ", &format!("({}) ", asrc), 1), "left operand as a literal"), (RELS[i].replacen(" b", &format!(" ({})", bsrc), 1), "right operand as a literal")] {
+                // bare literal (no parentheses) where the grammar allows it
+                let bare = if which.starts_with("left") { RELS[i].replacen("a ", &format!("{} ", asrc), 1) } else { RELS[i].replacen(" b", &format!(" {}", bsrc), 1) };
+                for text in [src.clone(), bare] {
+                    let got = match sess.obs(&text) {
+                        Ok(MV::Bool(v)) => Ok(v),
+                        Ok(other) => Err(format!("non-boolean result {:?}", other)),
+                        Err(e) => Err(e),
+                    };
+                    let same = match (&got, &rel[i]) {
+                        (Ok(p), Ok(q)) => p == q,
+                        (Err(_), Err(_)) => true,
+                        _ => false,
+                    };
+                    // a negative number or a lambda written bare may parse differently: only the parenthesised form is binding then
+                    let binding = text == src || matches!(if which.starts_with("left") { a } else { b }, MV::Str(_) | MV::Bool(_) | MV::Null | MV::List(_) | MV::Rec(_));
+                    if !same && binding {
+                        fail!(format!("literal-operand:{}:{}", RELS[i], tn), "`{}` ({}) gave {:?} but `{}` with both operands bound to names gave {:?}", text, which, got, RELS[i], rel[i]);
+                    }
+                }
+            }
+        }
     }
     // containers that hold the same heap cell several times (`x = [1]; [x, x]`): sharing is
     // not observable, so every relation is the one of the unshared copies
